@@ -180,6 +180,11 @@ fn stage(code: i64) -> &'static str {
 
 impl Property for C01 {
     type Case = C01Case;
+    fn freeze(&self, case: &C01Case) -> C01Case {
+        let mut c = case.clone();
+        c.hist = crate::props::hist::freeze_hist(&case.hist);
+        c
+    }
     fn id(&self) -> &'static str {
         "C01"
     }
